@@ -187,6 +187,30 @@ def handle (line : String) : String :=
         (acc.1 ++ [e, .probe "T" (acc.2 % 4), .probe "U" ((acc.2 + 1) % 4)], acc.2 + 1)) ([.probe "T" (i % 4), .probe "U" ((i + 2) % 4)], i)
       some (Spec.histCaseP p params withProbes.1)
     toString all.size ++ "\t" ++ "\t".intercalate (cases.map fun (t, d) => rec [t, d])
+  | ["c04", "forenum", len, lo, hi] =>
+    -- histories with for-init declarations (one name is enough for them), closing braces added
+    let names := ["T", "U"]
+    let alpha : List Spec.ScEv := [.openBlock, .closeBlock, .forObject "T" false, .forObject "T" true, .forObject "U" true] ++
+      names.flatMap fun n => [.typedefName n, .object n]
+    let rec seqsF : Nat → List (List Spec.ScEv)
+      | 0 => [[]]
+      | k+1 => (seqsF k).flatMap fun s => alpha.map fun e => s ++ [e]
+    let prefixes : List (List Spec.ScEv) := [[], [.typedefName "T"], [.typedefName "T", .typedefName "U"]]
+    let all := (((seqsF len.toNat!).filter fun s => s.any fun e => match e with | .forObject .. => true | _ => false).flatMap
+      fun s => prefixes.map fun p => (p, s)).toArray
+    let hi' := min hi.toNat! all.size
+    let idxs := (List.range (hi' - lo.toNat!)).map (· + lo.toNat!)
+    let cases := idxs.filterMap fun i =>
+      let (p, s) := all[i]!
+      let opens := s.foldl (fun (d : Int) e => match e with | .openBlock => d + 1 | .closeBlock => d - 1 | _ => d) 0
+      let s := s ++ List.replicate opens.toNat .closeBlock
+      if !(Spec.wellFormed s (Spec.after (p ++ [.openBlock]) [[]]) 0) then none else
+      -- every second case leaves the loop directly followed by the next event (no probe between)
+      let withProbes := s.foldl (fun (acc : List Spec.ScEv × Nat) e =>
+        let bare := i % 2 == 1 && (match e with | .forObject .. => true | _ => false)
+        (if bare then acc.1 ++ [e] else acc.1 ++ [e, .probe "T" (acc.2 % 4), .probe "U" ((acc.2 + 1) % 4)], acc.2 + 1)) ([], i)
+      some (Spec.histCaseLeaky p withProbes.1)
+    toString all.size ++ "\t" ++ "\t".intercalate (cases.map fun (t, d) => rec [t, d])
   | ["genast", dump] =>
     match readDump dump with
     | some v => "OK\t" ++ genStr false v ++ "\t" ++ genStr true v
